@@ -58,6 +58,7 @@ theorem inv_step {s s' : LState} {e : Ev} (hi : Inv s) (h : stepL s e = some s')
   | spawn t c => simp only [stepL] at h; cases h; exact hi
   | signal t c => simp only [stepL] at h; cases h; exact hi
   | wait t c => simp only [stepL] at h; cases h; exact hi
+  | assume t m md => simp only [stepL] at h; cases h; exact hi
 
 theorem inv_run {es : List Ev} {s s' : LState} (hi : Inv s) (h : runL s es = some s') : Inv s' := by
   induction es generalizing s with
@@ -91,6 +92,7 @@ theorem hold_kept {s s' : LState} {e : Ev} {t : Tid} {m : Mutex} {mode : Mode}
   | spawn t' c => simp only [stepL] at h; cases h; exact hh
   | signal t' c => simp only [stepL] at h; cases h; exact hh
   | wait t' c => simp only [stepL] at h; cases h; exact hh
+  | assume t' m' md => simp only [stepL] at h; cases h; exact hh
   | acq t' m' mode' =>
     by_cases hm : m = m'
     · subst hm
@@ -162,6 +164,7 @@ theorem hold_gained {s s' : LState} {e : Ev} {u : Tid} {m : Mutex} {mode : Mode}
   | spawn t' c => simp only [stepL] at h; cases h; exact absurd hh hn
   | signal t' c => simp only [stepL] at h; cases h; exact absurd hh hn
   | wait t' c => simp only [stepL] at h; cases h; exact absurd hh hn
+  | assume t' m' md => simp only [stepL] at h; cases h; exact absurd hh hn
   | acq t' m' mode' =>
     by_cases hm : m = m'
     · subst hm
@@ -298,7 +301,7 @@ theorem respectsB_sound {tbl : List Access} {tr : List Ev} (h : respectsB tbl tr
   have h2 := this.2 hh hmem
   cases hr : runL LState.init (tr.take i) with
   | none => rw [hr] at h2; cases h2
-  | some s => rw [hr] at h2; exact ⟨s, hr, holdsB_sound h2⟩
+  | some s => rw [hr] at h2; exact Or.inl ⟨s, hr, holdsB_sound h2⟩
 
 /-! ### the grouped table -/
 
